@@ -298,7 +298,7 @@ def native(locales, cases):
     if p.returncode != 0:
         raise replay.ReplayError(p.stderr[-2000:])
     out = []
-    for l in p.stdout.splitlines():
+    for l in p.stdout.split("\n"):
         if "\t" in l:
             a, b = l.split("\t")
             out.append((bytes.fromhex(a).decode(), bytes.fromhex(b).decode()))
